@@ -575,6 +575,11 @@ func (fr *Frame) convert(st *State, n *ast.CallExpr, to types.Type) Val {
 	case ts == "GoString" && strings.HasPrefix(v.S, "Slice_"):
 		x.need("bytes2str")
 		return x.bind(Val{T: "(bytes2str " + v.T + ")", S: "GoString", Ty: to}, "s")
+	case strings.HasPrefix(ts, "Slice_") && v.S == "GoString" && !isByte(elemType(to)):
+		// []rune(s): one element per code point - at most one per byte
+		r := x.havocVal("runes", to)
+		x.u.gfact(st.pc, fmt.Sprintf("(and (<= (slen_Int %s) (strlen %s)) (not (snil_Int %s)))", r.T, v.T, r.T))
+		return r
 	case strings.HasPrefix(ts, "Slice_") && v.S == "GoString":
 		x.need("str2bytes")
 		r := x.bind(Val{T: "(str2bytes " + v.T + ")", S: ts, Ty: to}, "bs")
